@@ -171,7 +171,8 @@ class Body:
         self.sig = j.get('sig')
         self.span = j['span']
         self.key = self.path if self.label == 'fn' else '%s#%s' % (self.path, self.label)
-        self.is_closure = self.kind == 'Closure'
+        # (a promoted constant or an inline const of a closure is a body of its own: its local 1 is not the closure environment)
+        self.is_closure = self.kind == 'Closure' and self.label == 'fn'
         self.block = {b['i']: b for b in self.blocks}
 
     def local_name(self, l):
